@@ -2,7 +2,7 @@
 """Prints a markdown table (one row per property) from the Props files and the evidence of the last runs: theorems, tie, cases, time."""
 import json, os, re
 H = os.path.dirname(os.path.dirname(os.path.abspath(__file__)))
-TRANSLATORS = {"C01": "etdrk, linops", "C02": "etdrk", "C03": "(nonlin)", "C06": "branches", "C09": "etdrk", "C13": "genutils", "C18": "icgen, guards", "C19": "etdrk", "C20": "guards", "C16": "guards"}
+TRANSLATORS = {"C01": "etdrk, linops", "C02": "etdrk", "C03": "nonlin", "C06": "branches", "C09": "etdrk", "C13": "genutils", "C18": "icgen, guards", "C19": "etdrk", "C20": "guards", "C16": "guards"}
 print("| property | theorems | translators (regenerated each run) | correspondence cases | witness cases | quick wall time |")
 print("|---|---|---|---|---|---|")
 for i in range(1, 21):
